@@ -27,6 +27,8 @@ pub mod types {
           PChoice ::= CHOICE { a INTEGER (0..255), b PInner, c NULL, e OCTET STRING }
           PEnum ::= ENUMERATED { one, two, three }
           PHolder ::= SEQUENCE { pick PChoice, kind PEnum, more SEQUENCE OF PChoice }
+          PBits ::= SEQUENCE { b BIT STRING }
+          PList ::= SEQUENCE OF INTEGER (0..255)
         END"
     );
 }
@@ -91,6 +93,27 @@ pub fn run(i: &Input) -> Result<(), String> {
 /// known finding KF-C17-choice-null: a NULL alternative of a CHOICE writes no bytes at all
 pub fn probe_choice_null() -> bool {
     rt(&PChoice::C(Null)).is_err()
+}
+
+/// C04 candidates in the protobuf reader (malformed input): true = panics / hangs instead of returning Ok or Err
+pub fn probe_malformed(which: u32) -> bool {
+    use std::sync::mpsc;
+    let (tx, rx) = mpsc::channel();
+    std::thread::spawn(move || {
+        let r = std::panic::catch_unwind(|| match which {
+            // a length-delimited field announcing 127 octets with nothing behind it
+            0 => { let b = [0x0Au8, 0x7F]; let _ = ProtobufReader::from(&b[..]).read::<PSettings>(); }
+            // a BIT STRING field shorter than the 8 trailing length octets
+            1 => { let b = [0x0Au8, 0x02, 0xFF, 0xFF]; let _ = ProtobufReader::from(&b[..]).read::<PBits>(); }
+            // a SEQUENCE OF as the root value
+            _ => { let b = [0x08u8, 0x01, 0x08, 0x02]; let _ = ProtobufReader::from(&b[..]).read::<PList>(); }
+        });
+        let _ = tx.send(r.is_err());
+    });
+    match rx.recv_timeout(std::time::Duration::from_secs(3)) {
+        Ok(panicked) => panicked,
+        Err(_) => true, // no verdict within 3 s: hang
+    }
 }
 
 pub fn search(budget: u64, try_one: &mut dyn FnMut(Input) -> bool) {
